@@ -1,9 +1,61 @@
-(** Property C17 — placeholder until the proofs are in (statements added below as they are proved). *)
+(** Property C17 — what runs is what was written: parsing is unambiguous and layout-insensitive.
+    Statements only; proofs in Match/LexProofs.v, Match/ParseProofs.v, Match/SyntaxProofs.v, Meta/MetaProofs.v.
+
+    A "layout" of a token list puts a whitespace separator before each token (empty only where two
+    tokens cannot fuse).  "items" are match components with '~...~' comments woven in anywhere
+    between them.  wf_item: the grammar's shape rules (left side of == is a header, variable or
+    function; a lone component is a header, variable, function or reference; any nesting depth,
+    any number of arguments and components).  wf_tok (inside layout_of): names are made of name
+    characters, strings hold no double quote, comments no tilde, numbers are digits. *)
 From Coq Require Import ZArith List Bool.
-From V Require Import Csv.CsvModel Match.Syntax.
+From V Require Import Csv.CsvModel Data.DataModel Match.Syntax Match.LexProofs Match.ParseProofs Match.SyntaxProofs Meta.MetaModel Meta.MetaProofs.
 Import ListNotations.
 Open Scope Z_scope.
 
+(** the text of a tree, in any layout and with any comments between components, parses to exactly that tree
+    (same component kinds, names with qualifiers, operators, argument order, literal values) *)
+Theorem C17_roundtrip : forall l items trail,
+  layout_of l (TLB :: toks_items items ++ [TRB]) -> all wsc trail = true -> Forall wf_item items ->
+  parse_text (render_stream l trail) = Some (comps_of items).
+Proof. exact text_roundtrip. Qed.
+Print Assumptions C17_roundtrip.
+
+(** whitespace, newlines and comments between components never change the tree *)
+Theorem C17_layout_insensitive : forall l1 l2 items1 items2 trail1 trail2,
+  layout_of l1 (TLB :: toks_items items1 ++ [TRB]) -> layout_of l2 (TLB :: toks_items items2 ++ [TRB]) ->
+  all wsc trail1 = true -> all wsc trail2 = true -> Forall wf_item items1 -> Forall wf_item items2 ->
+  comps_of items1 = comps_of items2 ->
+  parse_text (render_stream l1 trail1) = parse_text (render_stream l2 trail2).
+Proof. exact layout_insensitive. Qed.
+Print Assumptions C17_layout_insensitive.
+
+(** exactly one tree: the same text cannot be assembled from two different trees *)
+Theorem C17_one_reading : forall l1 l2 items1 items2 trail1 trail2,
+  layout_of l1 (TLB :: toks_items items1 ++ [TRB]) -> layout_of l2 (TLB :: toks_items items2 ++ [TRB]) ->
+  all wsc trail1 = true -> all wsc trail2 = true -> Forall wf_item items1 -> Forall wf_item items2 ->
+  render_stream l1 trail1 = render_stream l2 trail2 -> comps_of items1 = comps_of items2.
+Proof. exact one_reading. Qed.
+Print Assumptions C17_one_reading.
+
+(** the pieces: every well-formed token is read back wherever it cannot fuse with what follows, and
+    the parser reads back the tokens of every well-formed argument, for all fuel above its size *)
+Theorem C17_token : forall t rest, wf_tok t = true -> stops t rest = true -> lex1 (render_tok t ++ rest) = Some (t, rest).
+Proof. exact lex1_ok. Qed.
+Print Assumptions C17_token.
+
+Theorem C17_argument : forall a fuel rest, wf_arg a -> (length (toks_arg a) < fuel)%nat -> no_teq rest ->
+  parse_arg fuel (toks_arg a ++ rest) = Some (a, rest).
+Proof. exact parse_arg_roundtrip. Qed.
+Print Assumptions C17_argument.
+
+(** an outer comment (no ~ [ ] $ inside) hands the same csvpath text to the scanner and the match parser *)
+Theorem C17_outer_comment : forall cm ws body, forallb plainb cm = true -> forallb plainb ws = true ->
+  fst (extract_csvpath_and_comment (TILDE :: cm ++ TILDE :: ws ++ DOLLAR :: body ++ [RBR])) =
+  fst (extract_csvpath_and_comment (ws ++ DOLLAR :: body ++ [RBR])).
+Proof. intros cm ws body Hc Hw. rewrite (extract_with_comment cm ws body Hc Hw), (extract_without_comment ws body Hw). reflexivity. Qed.
+Print Assumptions C17_outer_comment.
+
+(** non-vacuity: a concrete text, and a concrete tree with a comment that meets every hypothesis *)
 Example C17_nonvacuous :
   (* [ #a == 5 -> @x = add(#b, -1.5) ~c~ gt(length("ab"),1) #"q r"] *)
   parse_text [91;32;35;97;32;61;61;32;53;32;45;62;32;64;120;32;61;32;97;100;100;40;35;98;44;32;45;49;46;53;41;32;126;99;126;32;103;116;40;108;101;110;103;116;104;40;34;97;98;34;41;44;49;41;32;35;34;113;32;114;34;93]
@@ -11,3 +63,15 @@ Example C17_nonvacuous :
           CLeft (AFun [103; 116] [AFun [108; 101; 110; 103; 116; 104] [ATermS [97; 98]]; ATermN false [49] None]) None;
           CLeft (AHdrQ [113; 32; 114]) None].
 Proof. vm_compute. reflexivity. Qed.
+
+Definition ex_items : list item :=
+  [IC (CEq (AHdr [97]) (ATermN false [53] None) (Some (ActAssign [120] (AFun [97; 100; 100] [AHdr [98]; ATermN true [49] (Some [53])]))));
+   ICm [99];
+   IC (CLeft (AFun [103; 116] [AFun [108; 101; 110; 103; 116; 104] [ATermS [97; 98]]; ATermN false [49] None]) None);
+   IC (CAssign [121] (AEq (AVar [120]) (ARef [103; 46; 118])))].
+Example C17_hypotheses_met :
+  layout_of (spaced (TLB :: toks_items ex_items ++ [TRB])) (TLB :: toks_items ex_items ++ [TRB]) /\ Forall wf_item ex_items.
+Proof.
+  split; [apply spaced_ok; vm_compute; reflexivity|].
+  repeat constructor.
+Qed.
